@@ -675,7 +675,7 @@ pub fn run(ctx: &Ctx, rep: &Report) {
         ctx,
         rep,
         "pure",
-        ctx.tier.pick(20_000, 400_000),
+        ctx.tier.pick(20_000, 3_200_000),
         &|| msg_case(65536),
         &check_pure,
     );
@@ -683,7 +683,7 @@ pub fn run(ctx: &Ctx, rep: &Report) {
         ctx,
         rep,
         "pure-large",
-        ctx.tier.pick(24, 400),
+        ctx.tier.pick(24, 1_200),
         &|| msg_case(4 << 20),
         &check_pure,
     );
@@ -691,7 +691,7 @@ pub fn run(ctx: &Ctx, rep: &Report) {
         ctx,
         rep,
         "header",
-        ctx.tier.pick(20_000, 400_000),
+        ctx.tier.pick(20_000, 3_200_000),
         &|| hdr_case(),
         &check_hdr,
     );
@@ -699,7 +699,7 @@ pub fn run(ctx: &Ctx, rep: &Report) {
         ctx,
         rep,
         "builder",
-        ctx.tier.pick(5_000, 100_000),
+        ctx.tier.pick(5_000, 800_000),
         &|| builder_case(),
         &check_builder,
     );
@@ -707,7 +707,7 @@ pub fn run(ctx: &Ctx, rep: &Report) {
         ctx,
         rep,
         "wire",
-        ctx.tier.pick(10_000, 200_000),
+        ctx.tier.pick(10_000, 1_600_000),
         &|| {
             (msg_case(4096), 0usize..4)
                 .prop_map(|(c, trailing)| {
